@@ -138,6 +138,7 @@ def tasks(tier, seed):
     T.append(Task('frame/RMAX', frame_only(C17.h_train), (C17.episodic()[1], 1, 1, 12), tier='B', max_paths=8000, deadline_s=400))
     s3 = M.basic('s3-branch')
     T.append(Task('frame/Policy.run_on', frame_only(C14.h_run_on), (s3, 'full', 'sampled', 2, seed), tier='B'))
+    T.append(Task('frame/Policy.run_on/tabular-policy', frame_only(C14.h_run_on), (s3, 'full-tab', 'sampled', 2, seed), tier='B', note='action_dist is a row of a probability table'))
     T.append(Task('frame/Policy.evaluate_on', frame_only(C14.h_evaluate_on), (s3, 'full', 2, 2, seed), tier='B', max_paths=4000))
     pf = [x for x in P.family(tier, seed) if x.name == 'p222-falsy-labels'][0]
     for kind in ('belief', 'fsc'):
